@@ -245,8 +245,10 @@ claim("C07", "other",
       "contract proofs of the count check and of the trace-to-component assignment (exhaustive case split) + structural obligations + bounded grammar-based native reader checks", "DESIGN.md 5/C07")
 
 claim("C14", "other",
-      "Lemmas proved: the normalised weights (hence every Monte-Carlo statistic) are unchanged when all weights are multiplied by a constant; the "
-      "zero-variance closed form of the weighted mean. The geometric half is outside what contracts over an SMT back end decide (planar "
+      "Proof: _statistics for every number of generators and realisations - mean = sum_r nw_r ROWSUM(r) / N and stddev = sqrt((sum_r nw_r "
+      "ROWSS(r, mean) / N) / (1 - sum_r nw_r^2 / N)) with nw = weights / sum(weights) (two loops with ghost prefix sums; the sums over one row of "
+      "realisations are named, np.sum over the columns trusted). Lemmas: the normalised weights (hence every Monte-Carlo statistic) are unchanged "
+      "when all weights are multiplied by a constant; the zero-variance closed form of the weighted mean. The geometric half is outside what contracts over an SMT back end decide (planar "
       "Voronoi / polygon clipping by scipy and shapely) and is carried by a bounded stand-in: weights equal the nearest-sensor area fractions of "
       "the boundary's convex hull computed by an independent half-plane (Sutherland-Hodgman) clipping, are non-negative and sum to one, the "
       "returned indices are the sensors strictly inside the boundary, all invariant under sensor order, translation up to 1e4 x the extent and "
@@ -254,7 +256,7 @@ claim("C14", "other",
       "the realisations in the requested space for all four generator / spatial combinations, are reproducible for a seeded generator, "
       "invariant to weight scale, and reduce to the closed form for zero standard deviations; unknown distribution names raise.",
       "Trusted: scipy.spatial.Voronoi, shapely, numpy Generator; the clipping oracle. Bounds: 4-11 sensors inside 4 hull families, 2-7 generators x 1-400 realisations.",
-      "contract lemmas (z3) + bounded native comparison with an independent geometric oracle (geometry not within reach of contracts)", "DESIGN.md 5/C14")
+      "contract-based deductive verification of the weighted statistics function + lemmas (z3+cvc5) + bounded native comparison of the geometric half with an independent clipping oracle", "DESIGN.md 5/C14")
 
 claim("C19", "other",
       "Structural obligations on the real source remove the schedule quantifier instead of exploring it: _process_hvsr replaces both settings "
